@@ -284,6 +284,13 @@ def chain(repo: Repo, chk: Check) -> None:
         step = len(n.body) == 1 and ast.unparse(n.body[0]) == f"{var} = {var}.source.op"
         chk.result(both and step, "C12.chain", f"{f.key}:follow", f"{f.module.relpath}:{n.lineno}", "follows .source.op through both cast kinds",
                    f"the chain loop is `{ast.unparse(n)[:160]}`")
+        # a cast with other users is a buffer in its own right (they read and write it, it gets its own copies): fusing the chain across it fills the last
+        # cast from the root while the newer data sits in the intermediate buffer
+        single = any(norm.any_match(["$x.source.uses.get_length() == 1", "len($x.source.uses) == 1", "$x.source.has_one_use()", "len(list($x.source.uses)) == 1"], a_) is not None
+                     for a_ in norm.atoms(n.test, True))
+        chk.result(single, "C12.chain", f"{f.key}:single-use", f"{f.module.relpath}:{n.lineno}", "the chain is followed only through casts whose sole user is the next cast",
+                   "the chain is followed through a cast that has other users: X -> memory_space_cast c (written by a kernel) -> layout_cast l is realised by filling l from X, "
+                   "although the kernel's result is in c and reaches X only with c's copy back after its last writer")
         loops.append(re.sub(r"\s+", " ", _norm_loop(n, var)))
     chk.result(len(set(loops)) == 1, "C12.chain", f"{CASTS}:sibling-agreement", repo.func(CASTS, "get_source_operand").where,
                "both chain walks are the same code", f"the two chain walks differ: {loops}")
